@@ -411,6 +411,14 @@ fn create_pkg_length(len: usize, include_self: bool) -> Vec<u8> {
     result
 }
 
+/// Verification hook: drives the private PkgLength encoder directly so that
+/// every representable length can be observed without materialising a body of
+/// that size. Compiled only with `--cfg rust_vmm_acpi_tables_verif`.
+#[cfg(rust_vmm_acpi_tables_verif)]
+pub fn verif_create_pkg_length(len: usize, include_self: bool) -> Vec<u8> {
+    create_pkg_length(len, include_self)
+}
+
 /// EISAName object. 'value' means the encoded u32 EisaIdString.
 pub struct EISAName {
     value: DWord,
